@@ -280,6 +280,10 @@ func (s *Syncer) Sync(ctx context.Context, nextCid cid.Cid, sel ipld.Node) error
 	// hook at the end when we no longer care what it does with the blocks.
 	if s.sync.blockHook != nil {
 		for _, c := range cids {
+			// A sync whose context has ended stops reporting blocks.
+			if ctx.Err() != nil {
+				return ctx.Err()
+			}
 			s.sync.blockHook(s.peerInfo.ID, c)
 		}
 	}
@@ -301,6 +305,11 @@ func (s *Syncer) walkFetch(ctx context.Context, rootCid cid.Cid, sel selector.Se
 	getMissingLs.TrustedStorage = true
 	getMissingLs.StorageReadOpener = func(lc ipld.LinkContext, l ipld.Link) (io.Reader, error) {
 		c := l.(cidlink.Link).Cid
+		// Blocks that are stored locally are read without asking anybody:
+		// this is where a traversal over those notices that it was canceled.
+		if ctx.Err() != nil {
+			return nil, ctx.Err()
+		}
 		// fetchBlock checks if the node is already present in storage.
 		err := s.fetchBlock(ctx, c)
 		if err != nil {
